@@ -209,7 +209,7 @@ def replay_gen(payload):
                     perm = [gp.index(p) for p in wp]
                     vals = np.asarray(got.values)
                     vals = np.transpose(vals, [0] + [1 + i for i in perm]).reshape(want.shape)
-                    if np.abs(vals - want).max() > 1e-9:
+                    if not (np.abs(vals - want).max() <= 1e-9):
                         fail("DynamicBayesianNetwork.initialize_initial_state", "copied_cpd_values", vals.tolist(), want.tolist())
                         break
                 bn = d2.get_constant_bn()
@@ -225,7 +225,7 @@ def replay_gen(payload):
                             break
                         perm = [gp.index(p) for p in wp]
                         vals = np.transpose(np.asarray(got.values), [0] + [1 + i for i in perm]).reshape(want.shape)
-                        if np.abs(vals - want).max() > 1e-9:
+                        if not (np.abs(vals - want).max() <= 1e-9):
                             fail("DynamicBayesianNetwork.get_constant_bn", "cpd_values", None)
                             break
             except Exception as ex:  # noqa
@@ -255,7 +255,7 @@ def replay_gen(payload):
             bad = []
             for row in case[key]:
                 i = t["dom"][qn[0]].index(row["s"])
-                if i >= len(vals) or abs(vals[i] - row["w"] / tot) > 1e-9:
+                if i >= len(vals) or not (abs(vals[i] - row["w"] / tot) <= 1e-9):
                     bad.append({"s": row["s"], "got": float(vals[i]) if i < len(vals) else None, "want": [row["w"], tot]})
             if bad:
                 fail("DBNInference." + mode, "marginal", bad, None, **feat)
@@ -274,7 +274,7 @@ def replay_gen(payload):
                         res = inf.query([qn, q2], ev or None)
                         for qq, cc in ((qn, case), (q2, other)):
                             vals = np.asarray(res[qq].values, dtype=float)
-                            if any(abs(vals[t["dom"][qq[0]].index(r["s"])] - r["w"] / cc["tot"]) > 1e-9 for r in cc["smooth"]):
+                            if any(not (abs(vals[t["dom"][qq[0]].index(r["s"])] - r["w"] / cc["tot"]) <= 1e-9) for r in cc["smooth"]):
                                 fail("DBNInference.query", "multi_variable_marginal", {"vars": [list(qn), list(q2)], "wrong": list(qq)}, None,
                                      same_slice=qn[1] == q2[1], regular=t.get("regular", True))
                                 break
